@@ -107,12 +107,16 @@ EnterForms ==
     "tainted_number_plus_rawptr", "volatile_number_plus_rawptr", "volatile_pluseq_rawptr", "int_plus_tainted_ptr",
     "assign_raw_pointer_wrong_type", "accept_pointer_nonpointer", "taint_from_foreign", "vol_assign_foreign",
     "reinterpret_fn_to_data", "reinterpret_data_to_fn", "free_foreign", "memcpy_dest_raw", "app_ptr_as_callback",
+    \* function-pointer types that differ for the application and coincide only under the guest ABI
+    "vol_assign_callback_abi_equal_long", "vol_assign_callback_abi_equal_int", "vol_assign_callback_abi_equal_ptr",
+    "vol_assign_callback_abi_equal_uint", "vol_assign_tainted_fn_abi_equal_long", "vol_assign_tainted_fn_abi_equal_ptr",
+    "taint_assign_tainted_fn_abi_equal", "invoke_callback_abi_equal", "invoke_tainted_fn_abi_equal",
     \* the same sources on a sandbox type whose pointer representation has the host's pointer width
     "vol_assign_stdarray_rawptr", "vol64_assign_rawptr", "vol64_assign_arr_rawptr", "vol64_assign_stdarray_rawptr",
     "vol64_assign_rawfn", "vol64_assign_rawptr_as_long", "taint64_assign_rawptr", "invoke64_rawptr",
     "vol64_assign_foreign_ptr" }
 LegalForms ==
-  { "taint_nullptr", "vol_assign_nullptr", "vol_assign_tainted_ptr", "vol_assign_callback", "vol_assign_tainted_fn",
+  { "taint_nullptr", "vol_assign_nullptr", "vol_assign_tainted_ptr", "vol_assign_callback", "vol_assign_callback_long", "vol_assign_callback_intp", "vol_assign_tainted_fn",
     "invoke_ok_int", "invoke_ok_tainted", "invoke_ok_nullptr", "invoke_ok_callback", "invoke_ok_opaque",
     "invoke_ok_volatile", "invoke_ok_app_pointer",
     "register_ok", "register_ok_ptr", "register_ok_void", "register_ok_opaque",
@@ -147,6 +151,10 @@ FormAllowed(ev) ==
          \/ ev.verdict = "reject"
          \/ /\ ev.rk \in Wrapped
             /\ (ev.cmp /\ (ev.x.k \in {"TV", "BH", "IH"} \/ ev.y.k \in {"TV", "BH", "IH"})) => ev.rk = "BH"
+            \* a hint stays a hint: whatever is computed from one (&&, ||, arithmetic, ...) must not
+            \* become a wrapper that a verifier accepts (indexing WITH a hint designates memory)
+            /\ (ev.form # "index" /\ (ev.x.k \in {"BH", "IH"} \/ ev.y.k \in {"BH", "IH"}))
+                 => ev.rk \in {"BH", "IH"}
          \/ /\ ev.rk = "P" /\ ev.cmp /\ ev.form \in {"eq", "ne"}   \* comparison of a tainted pointer with nullptr
             /\ IsTaintedPtr(ev.x) /\ ev.y.t = "null"
     [] ev.cls = "enter" -> ev.verdict = "reject"
